@@ -39,7 +39,7 @@ Variable pv : N.
 Variable sv : N.
 Variable bound : N.
 Variable u : counts.
-Variable fl : list (N * nat).
+Variable fl : list (N * kind).
 Variable W : world.
 
 Notation okstep := (okstep pv sv bound u fl W).
@@ -119,10 +119,9 @@ Definition s_emit (st : sstate) (s : string) : sstate :=
 
 Lemma rel_emit sc e st E stL s : rel sc e st E stL -> rel sc e (s_emit st s) E (emit_line stL s).
 Proof.
-  intros [Hv Hb Hi Hp Hpb HpE HpG Hwf Ht Hl HW]. constructor.
-  - exact Hv.
+  intros (Hfs & W' & Hs & [Hb Hfb Hp Hpb HpE HpG Hwf Ht Hl HW]). split; [exact Hfs|]. exists W'. split; [exact Hs|]. constructor.
   - exact Hb.
-  - exact Hi.
+  - exact Hfb.
   - exact Hp.
   - exact Hpb.
   - exact HpE.
@@ -130,7 +129,15 @@ Proof.
   - eapply wfenv_ext; [exact Hwf | cbn; lia].
   - cbn [s_emit SyltSem.trace emit_line s_out]. congruence.
   - apply linv_emit_line. exact Hl.
-  - apply (winv_states pv sv bound u fl W sc e st E stL (s_emit st s) (emit_line stL s) HW); auto. cbn; lia.
+  - apply (winv_states pv sv bound u fl W' sc e st E stL (s_emit st s) (emit_line stL s) HW).
+    + intros; reflexivity.
+    + intros c p Hr. destruct (wi_R _ _ _ _ _ _ _ _ _ _ _ HW c p Hr) as (x & A & B & C). exists x. split; [exact A | exact B].
+    + intros; reflexivity.
+    + intros; reflexivity.
+    + intros; reflexivity.
+    + cbn; lia.
+    + intros; reflexivity.
+    + cbn; lia.
 Qed.
 
 Lemma lframe_emit c c' E st s : wfenv E st -> linv st -> lframe c c' E st E (emit_line st s).
@@ -187,7 +194,7 @@ Proof.
       apply lframe_local; [apply (r_wf _ _ _ _ _ _ _ _ _ _ _ Hrel3) | apply (r_linv _ _ _ _ _ _ _ _ _ _ _ Hrel3) | apply HE; exact Hv | exact Hv].
     + apply rel_local_temp; [exact Hrel3 | lia].
     + split; [apply incl_tl, incl_refl|]. intros t' [<-|Ht']; [right; exact Hv | left; exact Ht'].
-    + intros w Hw. apply sget_sset_var. destruct (r_scb _ _ _ _ _ _ _ _ _ _ _ Hrel w Hw). lia.
+    + eapply keep_temp; [exact Hrel | lia].
   - unfold aexpand. rewrite (Hl v) by (left; exact Hv).
     eapply denotes_local; [left; reflexivity | apply sget_sset_same | rewrite get_cell_alloc_new; constructor].
 Qed.
@@ -195,56 +202,72 @@ Qed.
 (* ---- calls of top-level functions ---- *)
 
 (* ICopy t f: the callee of a call of the function f *)
-Lemma step_copy_fun sc e st F c c' E stL l t d :
+Lemma step_copy_fun sc e st F c c' E stL l t f p fid :
   rel sc e st E stL -> ctx_ok l F E c c' -> c <= t < c' -> 1 <= count_of u t ->
-  In d (w_funs W) -> In (fd_var d) (fnames fl) ->
+  f < bound -> sget (fmt_var f) E = Some p -> get_cell stL p = VFun fid ->
   exists E' stL' F',
-    okstep sc e st F c c' E stL (fst (agen_one u l (ICopy t (fd_var d)))) E' stL' F' /\
-    ldenotes F' E' stL' (aexpand l t) (VFun (fd_fid d)).
+    okstep sc e st F c c' E stL (fst (agen_one u l (ICopy t f))) E' stL' F' /\
+    ldenotes F' E' stL' (aexpand l t) (VFun fid).
 Proof.
-  intros Hrel Hctx Ht Hu Hd Hvis. pose proof Hctx as [Hb Hl HF HE].
-  pose proof (r_world _ _ _ _ _ _ _ _ _ _ _ Hrel) as HW.
-  destruct (wi_visL _ _ _ _ _ _ _ _ _ _ _ HW d Hd Hvis) as [Hname _].
-  destruct (wi_fun _ _ _ _ _ _ _ _ _ _ _ HW d Hd) as (Hst & _ & HIL).
-  destruct (wi_IL _ _ _ _ _ _ _ _ _ _ _ HW _ _ HIL) as [Hcell _].
+  intros Hrel Hctx Ht Hu Hfb Hname Hcell. pose proof Hctx as [Hb Hl HF HE].
   cbn [agen_one]. assert (Hused : (0 <? count_of u t) = true) by (apply N.ltb_lt; lia). rewrite Hused. cbn [fst].
   rewrite (aname_none l t) by (apply Hl; left; exact Ht).
-  rewrite (aexpand_user bound l c c' (fd_var d) Hl) by (apply (fs_var _ _ _ _ _ Hst)).
-  destruct (step_local sc e st F c c' E stL l t (EVar (fmt_var (fd_var d))) (VFun (fd_fid d)) Hrel Hctx Ht) as (E' & stL' & q & Hok & Hq & Hc).
+  rewrite (aexpand_user bound l c c' f Hl) by exact Hfb.
+  destruct (step_local sc e st F c c' E stL l t (EVar (fmt_var f)) (VFun fid) Hrel Hctx Ht) as (E' & stL' & q & Hok & Hq & Hc).
   { apply (PureEval_noncall _ _ _ _ stL); [reflexivity | | apply cells_ext_refl]. rewrite <- Hcell. apply Eval_local. exact Hname. }
   exists E', stL', (t :: F). split; [exact Hok|].
   unfold aexpand. rewrite (Hl t) by (left; exact Ht).
   eapply ldenotes_local; [left; reflexivity | exact Hq | exact Hc].
 Qed.
 
-(* the arguments of a call, evaluated from left to right when the call is made *)
-Lemma denotes_list F E : forall xs avs st,
-  Forall2 (fun av x => denotes F E st x av) avs xs -> wfenv E st -> linv st ->
-  exists lvs stb, EvalList E xs st (ROk lvs stb) /\ cells_ext st stb /\ Forall2 vrel avs lvs.
+(* an argument of a call: a plain value, or a closure of the world with the kind the parameter wants *)
+Definition adenotes (K : kind) (F : list N) (E : env) (stL : state) (ex : expr) (av : sval) : Prop :=
+  match K with
+  | KP => denotes F E stL ex av
+  | KF _ _ => exists d, w_D W d /\ dkind d = K /\ av = SyltSem.SClos (fd_ci d) /\ ldenotes F E stL ex (VFun (fd_fid d))
+  end.
+
+Lemma adenotes_mono K F F2 E stL E2 st2 ex av :
+  adenotes K F E stL ex av -> fut F E stL E2 st2 -> incl F F2 -> adenotes K F2 E2 st2 ex av.
 Proof.
-  induction xs as [|x xs IH]; intros avs st Hd Hwf Hli.
+  destruct K; cbn [adenotes]; intros H Hf Hi.
+  - eapply denotes_mono; eassumption.
+  - destruct H as (d & A & B & C & D). exists d. split; [exact A | split; [exact B | split; [exact C | eapply ldenotes_mono; eassumption]]].
+Qed.
+
+(* the arguments of a call, evaluated from left to right when the call is made *)
+Lemma adenotes_list F E : forall ks xs avs st,
+  Forall3 (fun K av x => adenotes K F E st x av) ks avs xs -> wfenv E st -> linv st ->
+  exists lvs stb, EvalList E xs st (ROk lvs stb) /\ cells_ext st stb /\ Forall3 (arel W) ks avs lvs.
+Proof.
+  induction ks as [|K ks IH]; intros xs avs st Hd Hwf Hli.
   - inversion Hd; subst. exists [], st. split; [apply EvalList_nil | split; [apply cells_ext_refl | constructor]].
-  - inversion Hd as [|av x' avs' xs' Hdx Hrest]; subst.
-    destruct (denotes_now _ _ _ _ _ Hdx Hwf Hli) as (lv & Hv & st1 & Hev & Hm & Hx1).
-    destruct xs as [|x2 xs].
+  - inversion Hd as [|K' av x ks' avs' xs' Hdx Hrest]; subst.
+    assert (Hone : exists lv st1, Eval E x st (ROk lv st1) /\ EvalMulti E x st (ROk [lv] st1) /\ cells_ext st st1 /\ arel W K av lv).
+    { destruct K; cbn [adenotes arel] in *.
+      - destruct (denotes_now _ _ _ _ _ Hdx Hwf Hli) as (lv & Hv & st1 & Hev & Hm & Hx1). exists lv, st1. auto.
+      - destruct Hdx as (d & A & B & C & D). destruct (D E st (fut_refl _ _ _) Hwf Hli) as (st1 & Hev & Hm & Hx1).
+        exists (VFun (fd_fid d)), st1. split; [exact Hev | split; [exact Hm | split; [exact Hx1 | exists d; auto]]]. }
+    destruct Hone as (lv & st1 & Hev & Hm & Hx1 & Hv).
+    destruct xs' as [|x2 xs].
     + inversion Hrest; subst. exists [lv], st1. split; [apply EvalList_one; exact Hm | split; [exact Hx1 | repeat constructor; exact Hv]].
     + assert (Hwf1 : wfenv E st1) by (eapply wfenv_ext; [exact Hwf | apply Hx1]).
       assert (Hli1 : linv st1) by (eapply cells_ext_linv; eassumption).
-      assert (Hrest1 : Forall2 (fun av x => denotes F E st1 x av) avs' (x2 :: xs)).
-      { clear Hd IH. induction Hrest as [|a b la lb Hab _ IHr]; constructor; [|exact IHr].
-        eapply denotes_mono; [exact Hab | apply fut_cells_ext; assumption | apply incl_refl]. }
-      destruct (IH avs' st1 Hrest1 Hwf1 Hli1) as (lvs & stb & Hel & Hxb & Hvs).
+      assert (Hrest1 : Forall3 (fun K0 av0 x0 => adenotes K0 F E st1 x0 av0) ks avs' (x2 :: xs)).
+      { clear Hd IH. induction Hrest as [|a b c0 la lb lc Hab _ IHr]; constructor; [|exact IHr].
+        eapply adenotes_mono; [exact Hab | apply fut_cells_ext; assumption | apply incl_refl]. }
+      destruct (IH (x2 :: xs) avs' st1 Hrest1 Hwf1 Hli1) as (lvs & stb & Hel & Hxb & Hvs).
       exists (lv :: lvs), stb. split; [eapply EvalList_cons; [discriminate | exact Hev | exact Hel]|].
       split; [eapply (cells_ext_trans st st1 stb); eassumption | constructor; assumption].
 Qed.
 
-(* ICall v tf args: `local V<v> = <tf>(<args>)` for a top-level function *)
+(* ICall v tf args: `local V<v> = <tf>(<args>)` for a closure of the world *)
 Lemma step_call_fun n ctx sc e st F c c' E stL l v tf (vs : list N) avs d r st' :
   P_apply pv sv bound u fl W n ->
   rel sc e st E stL -> ctx_ok l F E c c' -> c <= v < c' ->
-  In d (w_funs W) -> In (fd_var d) (fnames fl) ->
+  w_D W d ->
   ldenotes F E stL (aexpand l tf) (VFun (fd_fid d)) ->
-  Forall2 (fun av t => denotes F E stL (aexpand l t) av) avs vs ->
+  Forall3 (fun K av t => adenotes K F E stL (aexpand l t) av) (fd_pk d) avs vs ->
   SyltSem.apply n (SyltSem.SClos (fd_ci d)) avs st = (r, st') -> interesting r ->
   match r with
   | SyltSem.RVal rv =>
@@ -253,19 +276,19 @@ Lemma step_call_fun n ctx sc e st F c c' E stL l v tf (vs : list N) avs d r st' 
   | _ => exit_post pv sv bound u fl W ctx sc e c c' E stL (fst (agen_one u l (ICall v tf vs))) r st'
   end.
 Proof.
-  intros IHa Hrel Hctx Hv Hd Hvis Hf Hargs Hap Hint. pose proof Hctx as [Hb Hl HF HE].
+  intros IHa Hrel Hctx Hv Hd Hf Hargs Hap Hint. pose proof Hctx as [Hb Hl HF HE].
   pose proof (r_wf _ _ _ _ _ _ _ _ _ _ _ Hrel) as Hwf. pose proof (r_linv _ _ _ _ _ _ _ _ _ _ _ Hrel) as Hli.
   cbn [agen_one fst]. rewrite (aname_none l v) by (apply Hl; left; exact Hv).
   destruct (Hf E stL (fut_refl _ _ _) Hwf Hli) as (st1 & Hef & _ & Hx1).
   assert (Hwf1 : wfenv E st1) by (eapply wfenv_ext; [exact Hwf | apply Hx1]).
   assert (Hli1 : linv st1) by (eapply cells_ext_linv; eassumption).
-  assert (Hargs1 : Forall2 (fun av x => denotes F E st1 x av) avs (map (aexpand l) vs)).
-  { clear Hap. induction Hargs as [|av t avs' vs' Hd1 _ IH]; cbn [map]; constructor; [|exact IH].
-    eapply denotes_mono; [exact Hd1 | apply fut_cells_ext; assumption | apply incl_refl]. }
-  destruct (denotes_list F E _ _ st1 Hargs1 Hwf1 Hli1) as (lvs & stb & Hel & Hxb & Hvs).
+  assert (Hargs1 : Forall3 (fun K av x => adenotes K F E st1 x av) (fd_pk d) avs (map (aexpand l) vs)).
+  { clear Hap. induction Hargs as [|K av t ks' avs' vs' Hd1 _ IH]; cbn [map]; constructor; [|exact IH].
+    eapply adenotes_mono; [exact Hd1 | apply fut_cells_ext; assumption | apply incl_refl]. }
+  destruct (adenotes_list F E _ _ _ st1 Hargs1 Hwf1 Hli1) as (lvs & stb & Hel & Hxb & Hvs).
   assert (Hx1b : cells_ext stL stb) by (eapply cells_ext_trans; eassumption).
   assert (Hrelb : rel sc e st E stb) by (eapply rel_cells_ext; eassumption).
-  pose proof (IHa d avs lvs sc e st E stb r st' Hrelb Hd Hvis Hvs Hap Hint) as Hres.
+  pose proof (IHa d avs lvs sc e st E stb r st' Hrelb Hd Hvs Hap Hint) as Hres.
   destruct r as [rv|o|cc]; [| |destruct Hres].
   - destruct Hres as (rvs & stLr & Hcall & Hvr & Hrelr & Hnc & Hfr).
     assert (Hec : EvalCall E (aexpand l tf) (map (aexpand l) vs) stL (ROk rvs stLr))
@@ -277,16 +300,16 @@ Proof.
     + split; [apply ExecS_one; exact Hex|]. split; [|split; [|split]].
       * assert (Hncb : (s_ncell stL <= s_ncell stb)%positive) by (destruct Hx1b as (_ & _ & _ & _ & _ & _ & H & _); exact H).
         constructor.
-        -- intros t p Hbt Hp. rewrite sget_sset_var; [exact Hp|]. intros ->. rewrite (HE v Hv) in Hp. discriminate.
-        -- intros x p Hx. destruct (string_dec x (fmt_var v)) as [->|Hne].
+        -- intros t q Hbt Hq. rewrite sget_sset_var; [exact Hq|]. intros ->. rewrite (HE v Hv) in Hq. discriminate.
+        -- intros x q Hx. destruct (string_dec x (fmt_var v)) as [->|Hne].
            ++ right. left. exists v. split; [reflexivity | exact Hv].
            ++ left. rewrite sget_sset_other in Hx by exact Hne. exact Hx.
-        -- intros t p Hbt _ Hp. rewrite get_cell_alloc_old by (pose proof (wf_alloc _ _ Hwf _ _ Hp); lia).
-           rewrite (Hfr t p Hbt Hp). apply Hx1b. eapply wf_alloc; eassumption.
+        -- intros t q Hbt _ Hq. rewrite get_cell_alloc_old by (pose proof (wf_alloc _ _ Hwf _ _ Hq); lia).
+           rewrite (Hfr t q Hbt Hq). apply Hx1b. eapply wf_alloc; eassumption.
         -- cbn [alloc_cell snd s_ncell]. lia.
       * apply rel_local_temp; [exact Hrelr | lia].
       * split; [apply incl_tl, incl_refl|]. intros t' [<-|Ht']; [right; exact Hv | left; exact Ht'].
-      * intros w Hw. apply sget_sset_var. destruct (r_scb _ _ _ _ _ _ _ _ _ _ _ Hrel w Hw). lia.
+      * eapply keep_temp; [exact Hrel | lia].
     + unfold aexpand. rewrite (Hl v) by (left; exact Hv).
       eapply denotes_local; [left; reflexivity | apply sget_sset_same | rewrite get_cell_alloc_new; exact Hvr].
   - destruct Hres as (ev & stLr & Hcall & Htr).
@@ -329,7 +352,7 @@ Lemma step_define_temp sc e st F c c' E stL l t :
   rel sc e st E stL -> ctx_ok l F E c c' -> c <= t < c' -> 1 <= count_of u t ->
   exists E' stL' p,
     okstep sc e st F c c' E stL (fst (agen_one u l (IDefine t))) E' stL' F /\
-    sget (fmt_var t) E' = Some p /\ get_cell stL' p = VNil /\ (forall lv, ~ w_IL W p lv).
+    sget (fmt_var t) E' = Some p /\ get_cell stL' p = VNil /\ (forall lv, ~ w_P W p lv).
 Proof.
   intros Hrel [Hb Hl HF HE] Ht Hu.
   pose proof (r_wf _ _ _ _ _ _ _ _ _ _ _ Hrel) as Hwf. pose proof (r_linv _ _ _ _ _ _ _ _ _ _ _ Hrel) as Hli.
@@ -342,16 +365,16 @@ Proof.
     rewrite bind_locals_one in H. exact H. }
   exists (sset (fmt_var t) (s_ncell stL) E), (snd (alloc_cell stL VNil)), (s_ncell stL).
   split; [|split; [apply sget_sset_same | split; [apply get_cell_alloc_new|]]].
-  2: { intros lv Hlv. destruct (wi_IL _ _ _ _ _ _ _ _ _ _ _ (r_world _ _ _ _ _ _ _ _ _ _ _ Hrel) _ _ Hlv) as [_ Hlt]. lia. }
+  2: { intros lv Hlv. destruct (r_fixed _ _ _ _ _ _ _ _ _ _ _ _ _ Hrel Hlv) as [_ Hlt]. lia. }
   split; [apply ExecS_one; exact Hex|]. split; [apply lframe_w; apply lframe_local; [exact Hwf | exact Hli | apply HE; exact Ht | exact Ht]|].
   split; [apply rel_local_temp; [exact Hrel | lia]|]. split; [apply F_new_refl|].
-  intros w Hw. apply sget_sset_var. destruct (r_scb _ _ _ _ _ _ _ _ _ _ _ Hrel w Hw). lia.
+  eapply keep_temp; [exact Hrel | lia].
 Qed.
 
 (* IAssign t a for a temporary t that is a local: `V<t> = xa` *)
 Lemma step_assign_temp sc e st F c c' E stL l t a p sv_ :
   rel sc e st E stL -> bound <= c -> c <= t < c' -> 1 <= count_of u t ->
-  sget (fmt_var t) E = Some p -> (forall lv, ~ w_IL W p lv) -> alut_get l t = None ->
+  sget (fmt_var t) E = Some p -> (forall lv, ~ w_P W p lv) -> alut_get l t = None ->
   denotes F E stL (aexpand l a) sv_ ->
   exists stL' lv,
     okstep sc e st F c c' E stL (fst (agen_one u l (IAssign t a))) E stL' F /\
@@ -374,14 +397,18 @@ Qed.
 
 (* leaving a Lua block: the environment before the block, the state after it *)
 Lemma rel_restrict sc e0 st0 e st E E' stL stL' :
-  rel sc e0 st0 E stL -> rel sc e st E' stL' -> keep sc E E' -> (s_ncell stL <= s_ncell stL')%positive ->
+  rel sc e0 st0 E stL -> rel sc e st E' stL' -> keep fl sc E E' ->
+  (forall t p, bound <= t -> sget (fmt_var t) E = Some p -> sget (fmt_var t) E' = Some p) ->
+  (s_ncell stL <= s_ncell stL')%positive ->
   rel sc e st E stL'.
 Proof.
-  intros H0 [Hv Hb Hi Hp Hpb HpE HpG Hwf Ht Hl HW] Hk Hnc. constructor.
-  - intros w Hin. destruct (Hv w Hin) as (cc & x & p & H1 & H2 & H3 & H4).
-    exists cc, x, p. repeat split; auto. rewrite <- (Hk w Hin). exact H3.
+  intros H0 (Hfs & W1 & Hs1 & [Hb Hfb Hp Hpb HpE HpG Hwf Ht Hl HW]) Hk Htmp Hnc.
+  split.
+  { intros f ar Hin. destruct (Hfs f ar Hin) as (c & p & d & A & B & C). exists c, p, d. split; [exact A | split; [|exact C]].
+    rewrite <- (Hk f); [exact B|]. right. unfold fnames. change f with (fst (f, ar)). apply in_map. exact Hin. }
+  exists W1. split; [exact Hs1|]. constructor.
   - exact Hb.
-  - exact Hi.
+  - exact Hfb.
   - exact Hp.
   - exact Hpb.
   - apply (r_pvE _ _ _ _ _ _ _ _ _ _ _ H0).
@@ -389,14 +416,11 @@ Proof.
   - eapply wfenv_ext; [apply (r_wf _ _ _ _ _ _ _ _ _ _ _ H0) | exact Hnc].
   - exact Ht.
   - exact Hl.
-  - pose proof (r_world _ _ _ _ _ _ _ _ _ _ _ H0) as HW0.
-    apply (winv_env pv sv bound u fl W sc e st E' stL' sc e E HW).
-    + apply (wi_scS _ _ _ _ _ _ _ _ _ _ _ HW).
+  - apply (winv_env pv sv bound u fl W1 sc e st E' stL' fl sc e E HW).
+    + intros v Hv. destruct (wi_sc _ _ _ _ _ _ _ _ _ _ _ HW v Hv) as (c & p & A & B & C). exists c, p.
+      split; [exact A | split; [|exact C]]. rewrite <- (Hk v (or_introl Hv)). exact B.
     + apply (wi_scfl _ _ _ _ _ _ _ _ _ _ _ HW).
-    + apply (wi_lprot _ _ _ _ _ _ _ _ _ _ _ HW0).
-    + apply (wi_visS _ _ _ _ _ _ _ _ _ _ _ HW).
-    + apply (wi_visL _ _ _ _ _ _ _ _ _ _ _ HW0).
-    + apply (wi_vsc _ _ _ _ _ _ _ _ _ _ _ HW).
+    + intros t p Hbt Hq. apply (wi_temps _ _ _ _ _ _ _ _ _ _ _ HW t p Hbt). apply Htmp; assumption.
 Qed.
 
 Notation okstepS := (okstepS pv sv bound u fl W).
@@ -411,37 +435,25 @@ Qed.
 Lemma rel_shrink sc sc' e e' st0 E0 stL0 st E stL :
   rel sc e st0 E0 stL0 -> rel sc' e' st E stL -> incl sc sc' -> sext sc e e' -> rel sc e st E stL.
 Proof.
-  intros H0 [Hv Hb Hi Hp Hpb HpE HpG Hwf Ht Hl HW] Hincl Hs. constructor.
-  - intros w Hw. destruct (Hv w (Hincl w Hw)) as (cc & x & p & H1 & H2 & H3 & H4).
-    exists cc, x, p. splits; auto. rewrite <- (Hs w (or_introl Hw)). exact H1.
-  - intros w Hw. apply Hb. apply Hincl. exact Hw.
-  - intros v1 v2 cc H1 H2 Ha Hb2. apply (Hi v1 v2 cc); auto.
-    + rewrite (Hs v1 (or_introl H1)). exact Ha.
-    + rewrite (Hs v2 (or_introl H2)). exact Hb2.
-  - destruct Hp as (cp & Hlkp & Hnthp & Hdist). exists cp. splits.
-    + rewrite <- (Hs pv (or_intror (or_introl eq_refl))). exact Hlkp.
-    + exact Hnthp.
-    + intros w Hw. rewrite <- (Hs w (or_introl Hw)). apply Hdist. apply Hincl. exact Hw.
+  intros H0 (Hfs & W1 & Hs1 & [Hb Hfb Hp Hpb HpE HpG Hwf Ht Hl HW]) Hincl Hs.
+  split.
+  { intros f ar Hin. destruct (Hfs f ar Hin) as (c & p & d & A & B & C). exists c, p, d. split; [|split; [exact B | exact C]].
+    rewrite <- (Hs f); [exact A|]. right. right. unfold fnames. change f with (fst (f, ar)). apply in_map. exact Hin. }
+  exists W1. split; [exact Hs1|]. constructor.
+  - apply (r_scb _ _ _ _ _ _ _ _ _ _ _ H0).
+  - exact Hfb.
+  - rewrite <- (Hs pv (or_intror (or_introl eq_refl))). exact Hp.
   - exact Hpb.
   - exact HpE.
   - exact HpG.
   - exact Hwf.
   - exact Ht.
   - exact Hl.
-  - pose proof (r_world _ _ _ _ _ _ _ _ _ _ _ H0) as HW0.
-    apply (winv_env pv sv bound u fl W sc' e' st E stL sc e E HW).
-    + intros v c x Hv' Hlk. apply (wi_scS _ _ _ _ _ _ _ _ _ _ _ HW v c x (Hincl v Hv')). rewrite (Hs v (or_introl Hv')). exact Hlk.
-    + intros v Hv'. apply (wi_scfl _ _ _ _ _ _ _ _ _ _ _ HW v (Hincl v Hv')).
-    + intros v p lv Hv'. apply (wi_lprot _ _ _ _ _ _ _ _ _ _ _ HW v p lv (Hincl v Hv')).
-    + intros d Hd Hvis. destruct (wi_vsc _ _ _ _ _ _ _ _ _ _ _ HW0 d Hd Hvis) as [Hisc Hifl].
-      apply (fvisS_same pv e' e d (wi_visS _ _ _ _ _ _ _ _ _ _ _ HW d Hd Hvis)).
-      * symmetry. apply Hs. right. right. exact Hvis.
-      * intros g [[Hg|Hg]|Hg]; symmetry; apply Hs.
-        -- left. apply Hisc. exact Hg.
-        -- right. right. unfold fnames in *. apply (incl_map fst Hifl). exact Hg.
-        -- right. left. exact Hg.
-    + apply (wi_visL _ _ _ _ _ _ _ _ _ _ _ HW).
-    + apply (wi_vsc _ _ _ _ _ _ _ _ _ _ _ HW0).
+  - apply (winv_env pv sv bound u fl W1 sc' e' st E stL fl sc e E HW).
+    + intros v Hv. destruct (wi_sc _ _ _ _ _ _ _ _ _ _ _ HW v (Hincl v Hv)) as (c & p & A & B & C). exists c, p.
+      split; [rewrite <- (Hs v (or_introl Hv)); exact A | split; assumption].
+    + intros v Hv. apply (wi_scfl _ _ _ _ _ _ _ _ _ _ _ HW v (Hincl v Hv)).
+    + apply (wi_temps _ _ _ _ _ _ _ _ _ _ _ HW).
 Qed.
 
 (* an exit after a prefix that ran normally; the ranges of both parts lie in [lo, hi) *)
@@ -455,7 +467,7 @@ Proof.
   assert (Hback : forall stL', rel sc1 e1 st' E1 stL' -> xkeep bound a2 b2 E1 stL1 stL' ->
                     rel sc e st' E stL' /\ xkeep bound lo hi E stL stL').
   { intros stL' Hr [Hnc Hc]. split.
-    - eapply (rel_restrict sc e st e st' E E1 stL stL'); [exact Hrel | eapply rel_shrink; [exact Hrel | eassumption | eassumption | eassumption] | exact Hk1 |].
+    - eapply (rel_restrict sc e st e st' E E1 stL stL'); [exact Hrel | eapply rel_shrink; [exact Hrel | eassumption | eassumption | eassumption] | exact Hk1 | apply (wr_incl _ _ _ _ _ _ _ Hf1) |].
       pose proof (wr_ncell _ _ _ _ _ _ _ Hf1). lia.
     - split; [pose proof (wr_ncell _ _ _ _ _ _ _ Hf1); lia|].
       intros t p Hbt Hr' Hp. rewrite (Hc t p Hbt); [| lia | apply (wr_incl _ _ _ _ _ _ _ Hf1); assumption].
@@ -514,61 +526,55 @@ Variable u : counts.
 
 Lemma rel_shrink_w fl W fl' W' sc sc' e e' st0 E0 stL0 st E stL :
   rel pv sv bound u fl W sc e st0 E0 stL0 -> rel pv sv bound u fl' W' sc' e' st E stL ->
-  wsub W W' -> incl (fnames fl) (fnames fl') -> incl sc sc' -> sext pv fl sc e e' ->
+  wsub W W' -> incl fl fl' -> incl sc sc' -> sext pv fl sc e e' ->
   rel pv sv bound u fl W sc e st E stL.
 Proof.
-  intros H0 [Hv Hb Hi Hp Hpb HpE HpG Hwf Ht Hl HW] (HwS & HwL & HwCS & HwCL & Hwf') Hfn Hincl Hs.
-  pose proof H0 as [Hv0 Hb0 Hi0 Hp0 _ _ _ _ _ _ HW0].
-  constructor.
-  - intros w Hw. destruct (Hv w (Hincl w Hw)) as (cc & x & p & H1 & H2 & H3 & H4).
-    exists cc, x, p. repeat split; auto. rewrite <- (Hs w (or_introl Hw)). exact H1.
-  - exact Hb0.
-  - exact Hi0.
-  - destruct Hp as (cp & Hlkp & Hnthp & Hdist). exists cp. repeat split.
-    + rewrite <- (Hs pv (or_intror (or_introl eq_refl))). exact Hlkp.
-    + exact Hnthp.
-    + intros w Hw. rewrite <- (Hs w (or_introl Hw)). apply Hdist. apply Hincl. exact Hw.
+  intros H0 (Hfs & W1 & Hs1 & [Hb Hfb Hp Hpb HpE HpG Hwf Ht Hl HW]) Hww Hfi Hincl Hs.
+  destruct H0 as (Hfs0 & H0).
+  assert (Hww1 : wsub W W1) by (eapply wsub_trans; eassumption).
+  split.
+  { intros f ar Hin. destruct (Hfs0 f ar Hin) as (c0 & p0 & d0 & A0 & _ & C0 & D0 & F0).
+    destruct (Hfs f ar (Hfi _ Hin)) as (c & p & d & A & B & C & _).
+    assert (Hc : c = c0).
+    { rewrite (Hs f) in A; [congruence|]. right. right. unfold fnames. change f with (fst (f, ar)). apply in_map. exact Hin. }
+    subst c.
+    destruct Hww1 as (_ & HF & _). destruct Hs1 as (_ & HF1 & _).
+    destruct (wi_Ffun _ _ _ _ _ _ _ _ _ _ _ HW c0 p d p0 d0 (HF1 _ _ _ C) (HF _ _ _ C0)) as [-> ->].
+    exists c0, p0, d0. auto. }
+  exists W1. split; [exact Hww1|]. constructor.
+  - destruct H0 as (W0 & _ & H0). apply (r0_scb _ _ _ _ _ _ _ _ _ _ _ H0).
+  - destruct H0 as (W0 & _ & H0). apply (r0_flb _ _ _ _ _ _ _ _ _ _ _ H0).
+  - rewrite <- (Hs pv (or_intror (or_introl eq_refl))). exact Hp.
   - exact Hpb.
   - exact HpE.
   - exact HpG.
   - exact Hwf.
   - exact Ht.
   - exact Hl.
-  - destruct HW0 as [H1 H2 HCS HCL Hav H3 H4 H5 H6 H7 H8 H9 H10 H11 H12 H13]. constructor.
-    + intros c x Hc. apply (wi_IS _ _ _ _ _ _ _ _ _ _ _ HW). apply HwS. exact Hc.
-    + intros p lv Hq. apply (wi_IL _ _ _ _ _ _ _ _ _ _ _ HW). apply HwL. exact Hq.
-    + intros ci cl Hc. apply (wi_CS _ _ _ _ _ _ _ _ _ _ _ HW). apply HwCS. exact Hc.
-    + intros fid c Hc. apply (wi_CL _ _ _ _ _ _ _ _ _ _ _ HW). apply HwCL. exact Hc.
-    + exact Hav.
-    + intros d Hd. apply (wi_clos _ _ _ _ _ _ _ _ _ _ _ HW d). apply Hwf'. exact Hd.
-    + exact H4.
-    + exact H5.
-    + exact H6.
-    + exact H7.
-    + exact H8.
-    + exact H9.
-    + intros w p lv Hw Hq Hpr. apply (wi_lprot _ _ _ _ _ _ _ _ _ _ _ HW w p lv (Hincl w Hw) Hq). apply HwL. exact Hpr.
-    + exact H11.
-    + intros d Hd Hvis. apply (wi_visL _ _ _ _ _ _ _ _ _ _ _ HW d (Hwf' d Hd) (Hfn _ Hvis)).
-    + exact H13.
+  - apply (winv_env pv sv bound u fl' W1 sc' e' st E stL fl sc e E HW).
+    + intros v Hv. destruct (wi_sc _ _ _ _ _ _ _ _ _ _ _ HW v (Hincl v Hv)) as (c & p & A & B & C). exists c, p.
+      split; [rewrite <- (Hs v (or_introl Hv)); exact A | split; assumption].
+    + destruct H0 as (W0 & _ & H0). apply (wi_scfl _ _ _ _ _ _ _ _ _ _ _ (r0_world _ _ _ _ _ _ _ _ _ _ _ H0)).
+    + apply (wi_temps _ _ _ _ _ _ _ _ _ _ _ HW).
 Qed.
 
 (* ... and to the Lua environment before it *)
 Lemma rel_leave fl W fl' W' sc sc' e e' st0 st E E' stL0 stL :
   rel pv sv bound u fl W sc e st0 E stL0 -> rel pv sv bound u fl' W' sc' e' st E' stL ->
-  wsub W W' -> incl (fnames fl) (fnames fl') -> incl sc sc' -> sext pv fl sc e e' -> keep sc E E' ->
+  wsub W W' -> incl fl fl' -> incl sc sc' -> sext pv fl sc e e' -> keep fl sc E E' ->
+  (forall t p, bound <= t -> sget (fmt_var t) E = Some p -> sget (fmt_var t) E' = Some p) ->
   (s_ncell stL0 <= s_ncell stL)%positive ->
   rel pv sv bound u fl W sc e st E stL.
 Proof.
-  intros H0 H1 Hw Hfn Hi Hs Hk Hn.
-  eapply (rel_restrict pv sv bound u fl W sc e st0 e st E E' stL0 stL); [exact H0 | | exact Hk | exact Hn].
+  intros H0 H1 Hw Hfn Hi Hs Hk Htmp Hn.
+  eapply (rel_restrict pv sv bound u fl W sc e st0 e st E E' stL0 stL); [exact H0 | | exact Hk | exact Htmp | exact Hn].
   eapply rel_shrink_w; eassumption.
 Qed.
 
 (* an exit after a prefix that ran normally and defined local functions; the ranges of both parts lie in [lo, hi) *)
 Lemma exit_pre_w {A} fl W fl1 W1 ctx sc sc1 e e1 st a b a2 b2 lo hi E stL b1 E1 stL1 bl2 (r : SyltSem.res A) st' :
-  ExecS E b1 stL (ROk (E1, SigNormal) stL1) -> wframe bound a b E stL E1 stL1 -> keep sc E E1 ->
-  rel pv sv bound u fl W sc e st E stL -> wsub W W1 -> incl (fnames fl) (fnames fl1) -> sext pv fl sc e e1 -> incl sc sc1 ->
+  ExecS E b1 stL (ROk (E1, SigNormal) stL1) -> wframe bound a b E stL E1 stL1 -> keep fl sc E E1 ->
+  rel pv sv bound u fl W sc e st E stL -> wsub W W1 -> incl fl fl1 -> sext pv fl sc e e1 -> incl sc sc1 ->
   exit_post pv sv bound u fl1 W1 ctx sc1 e1 a2 b2 E1 stL1 bl2 r st' -> lo <= a -> b <= hi -> lo <= a2 -> b2 <= hi ->
   exit_post pv sv bound u fl W ctx sc e lo hi E stL (b1 ++ bl2) r st'.
 Proof.
@@ -577,7 +583,7 @@ Proof.
   assert (Hback : forall stL', rel pv sv bound u fl1 W1 sc1 e1 st' E1 stL' -> xkeep bound a2 b2 E1 stL1 stL' ->
                     rel pv sv bound u fl W sc e st' E stL' /\ xkeep bound lo hi E stL stL').
   { intros stL' Hr [Hnc Hc]. pose proof (wr_ncell _ _ _ _ _ _ _ Hf1) as Hn1. split.
-    - eapply (rel_leave fl W fl1 W1 sc sc1 e e1 st st' E E1 stL stL'); try eassumption. lia.
+    - eapply (rel_leave fl W fl1 W1 sc sc1 e e1 st st' E E1 stL stL'); try eassumption; [apply (wr_incl _ _ _ _ _ _ _ Hf1) | lia].
     - split; [lia|].
       intros t p Hbt Hr' Hp. rewrite (Hc t p Hbt); [| lia | apply (wr_incl _ _ _ _ _ _ _ Hf1); assumption].
       apply (wr_cells _ _ _ _ _ _ _ Hf1 t p Hbt); [lia | exact Hp]. }
